@@ -3,7 +3,8 @@
 # in BASELINE.json's stable_pass list passes.
 export GOFLAGS=-mod=mod GOPROXY=off GOSUMDB=off GOTOOLCHAIN=local
 OUT=$(mktemp /tmp/verif-baseline-XXXXXX.json)
-(cd /repo && go test -json -vet=off -count=1 -timeout 25m ./... > "$OUT" 2>/dev/null)
+REPO="${1:-/repo}"
+(cd "$REPO" && go test -json -vet=off -count=1 -timeout 25m ./... > "$OUT" 2>/dev/null)
 python3 - "$OUT" <<'PY'
 import json,sys
 passed=set()
